@@ -131,11 +131,12 @@ def run_script(script, nreq, seed=0, dev=0):
                 ev.append({"ev": "call", "id": i + 1, "kind": "DeviceDescriptorResponse" if i % 2 == 0 else "MemoryResponse", "t": now()})
                 try:
                     r = await conn.request(req)
-                    ev.append({"ev": "ret", "id": i + 1, "out": "ok", "kind": type(r.payload).__name__, "seq": r.tpci.sequence_number, "t": now()})
-                except ManagementConnectionError:
-                    ev.append({"ev": "ret", "id": i + 1, "out": "err", "kind": "", "seq": 0, "t": now()})
+                    ev.append({"ev": "ret", "id": i + 1, "out": "ok", "why": "", "kind": type(r.payload).__name__, "seq": r.tpci.sequence_number, "t": now()})
+                except ManagementConnectionError as ex:
+                    ev.append({"ev": "ret", "id": i + 1, "out": "err", "why": "unexpected" if "unexpected telegram" in str(ex) else "other",
+                               "kind": "", "seq": 0, "t": now()})
                 except (Exception, asyncio.CancelledError) as ex:  # noqa: BLE001
-                    ev.append({"ev": "ret", "id": i + 1, "out": "exc:" + type(ex).__name__, "kind": "", "seq": 0, "t": now()})
+                    ev.append({"ev": "ret", "id": i + 1, "out": "exc:" + type(ex).__name__, "why": "", "kind": "", "seq": 0, "t": now()})
                 await asyncio.sleep(0.2)
             try:
                 await xknx.management.disconnect(PEER)
